@@ -12,7 +12,7 @@ from typing import Any, Dict, List, Optional, Tuple
 from mtsa.absint import K, R, Ref, S, U, V, State
 from mtsa.index import FunctionInfo, Repo
 from mtsa.report import AnalysisError
-from .common import RepoInterp
+from .common import RepoInterp, block_entry
 
 
 def bind_values(callee: FunctionInfo, args: List[V], kwargs: Dict[str, V], skip_self: bool = False) -> Dict[str, V]:
@@ -35,7 +35,7 @@ class TraceGlue:
         self.repo = repo
         self.given = config_given
         self.fi = repo.fn("monkeytype", "trace")
-        self.tc = repo.fn("monkeytype.tracing", "trace_calls")
+        self.tc = block_entry(repo)
         self.calls: List[Dict[str, V]] = []  # bound arguments of every trace_calls call
         self.cfg_calls: List[str] = []
         inline = {f.fq for f in repo.module("monkeytype").functions.values()}
@@ -58,7 +58,7 @@ class TraceGlue:
             return R("cfg", meth=K(call.func.attr), of=fval)
         callee = self.ri.resolve(call, fval)
         if callee is self.tc:
-            self.calls.append({k: st.freeze(v) for k, v in bind_values(callee, args, kwargs).items()})
+            self.calls.append({k: st.freeze(v) for k, v in bind_values(callee, args, kwargs, skip_self=callee.cls is not None).items()})
             return R("trace_calls_context", n=K(len(self.calls)))
         if callee is not None and callee.fq == "monkeytype.config.get_default_config":
             return R("default_config")
@@ -86,13 +86,25 @@ class TraceCallsGlue:
 
     def __init__(self, repo: Repo) -> None:
         self.repo = repo
-        self.fi = repo.fn("monkeytype.tracing", "trace_calls")
+        self.fi = block_entry(repo)
         ci = repo.cls("monkeytype.tracing", "CallTracer")
         self.init = repo.method(ci, "__init__")
         self.ctor: List[Dict[str, V]] = []
         inline = {f.fq for f in repo.module("monkeytype.tracing").functions.values() if f.cls is None and f is not self.fi}
-        self.ri = RepoInterp(repo, self.fi, inline=inline, call_hook=self.hook, may_fork=(), heap=True)
-        env = {p: S("p:" + p) for p in self.fi.params}
+        if self.fi.cls is not None:
+            # the tracing block is a class: one block is entered and left through a driver
+            ps_ = [p for p in self.fi.params if p != "self"]
+            node = ast.parse(f"def __driver__({', '.join(ps_)}):\n    with trace_calls({', '.join(ps_)}):\n        pass\n").body[0]
+            from mtsa.index import FunctionInfo as _FI
+            drv = _FI(self.fi.module, "<driver>", node)
+            inline |= {f.fq for f in repo.module("monkeytype.tracing").functions.values() if f.cls is self.fi.cls}
+            self.ri = RepoInterp(repo, drv, inline=inline, call_hook=self.hook, may_fork=(), heap=True)
+            self.ri.construct_instances = True
+            self.ri.dispatch_instances = True
+            env = {p: S("p:" + p) for p in ps_}
+        else:
+            self.ri = RepoInterp(repo, self.fi, inline=inline, call_hook=self.hook, may_fork=(), heap=True)
+            env = {p: S("p:" + p) for p in self.fi.params}
         outs = self.ri.run(env)
         if not outs:
             raise AnalysisError("trace_calls: no outcome")
